@@ -95,6 +95,19 @@ Proof.
 Qed.
 Print Assumptions C29_sampled_levels.
 
+(* "and nothing else", unconditionally: for EVERY history (values may come back) the search
+   terminates within its fuel, every reported pair is a genuine change point of (last, head]
+   carrying the value found there, and levels strictly increase; only completeness (each
+   change is reported) needs the no-return hypothesis, see C29_no_return_needed below *)
+Theorem C29_reported_are_changes : forall (V : Type) (eqb : V -> V -> bool),
+  (forall a b, eqb a b = true <-> a = b) ->
+  forall (get : Z -> V) (head last step : Z), 1 <= step -> last <= head ->
+  exists r, find_state_changes eqb get head last step = Some r /\
+            (forall l v, In (l, v) r -> last < l <= head /\ v = get l /\ get l <> get (l - 1)) /\
+            StronglySorted Z.lt (map fst r).
+Proof. exact @find_state_changes_sound. Qed.
+Print Assumptions C29_reported_are_changes.
+
 (* ---- non-vacuity: a history with three change points, one at last+1, two adjacent, one at head ---- *)
 Definition ex_get : Z -> Z := pw 7 [(101, 8); (130, 9); (131, 10); (160, 11)].
 
@@ -115,3 +128,10 @@ Proof.
   assert (Hm2 : b / 10 <= c / 10) by (apply Z.div_le_mono; [reflexivity | apply Z.lt_le_incl; exact Hbc]).
   rewrite <- E in Hm2. apply Z.le_antisymm; assumption.
 Qed.
+
+(* the no-return hypothesis cannot be dropped from C29_changes_exact: a value that comes back
+   between two samples hides both changes *)
+Example C29_no_return_needed :
+  let g := pw 1 [(110, 2); (120, 1)] in
+  find_state_changes Z.eqb g 160 100 60 = Some [] /\ changes Z.eqb g 100 160 = [(110, 2); (120, 1)].
+Proof. vm_compute. split; reflexivity. Qed.
